@@ -90,7 +90,14 @@ all_reference_ids: Set[str] = set()
 def managed_provide_cache(provide_id: str) -> Generator[None, None, None]:
     all_reference_ids_before = all_reference_ids.copy()
 
+    # The provider itself references its data for as long as its body is being rendered,
+    # so that components rendered (and finished) inside the body cannot delete it early.
+    provide_references.setdefault(provide_id, set()).add(provide_id)
+
     def cache_cleanup() -> None:
+        if provide_id in provide_references:
+            provide_references[provide_id].discard(provide_id)
+
         # Lastly, remove provided data from the cache that was generated during this run,
         # IF there are no more references to it.
         if provide_id in provide_references and not provide_references[provide_id]:
